@@ -98,6 +98,8 @@ def r3(ctx):
     rn = [t for t in b.calls(r'regex::Regex::new$')]
     a = [sym(b, t.args[0]) for t in rn]
     good1 = any(x == ('static', 'text::SPLIT_WORD_WHITESPACE_PATTERN') for x in a)
+    from rules.common import word_pattern_is_whitespace_only
+    word_pattern_is_whitespace_only(ctx, b, 'tokenizer')
     ctx.require(good1, b, 'tokenizer-pattern', 'BPETokenizer::new compiles text::SPLIT_WORD_WHITESPACE_PATTERN',
                 'BPETokenizer::new compiles %s' % [show_in(b, x) for x in a])
     c = ctx.body('text::count_words_whitespace')
